@@ -60,3 +60,124 @@ Proof.
     + apply dm_subs_once.
     + rewrite len_dm_devices. unfold len in LT. exact LT.
 Qed.
+
+(* ---- conformance of the composite ---- *)
+Definition okreply (uid : N) (q : request) (out : list reply) (same : Prop) : Prop :=
+  exists r, out = [r] /\
+    (is_broadcast (q_dst q) = true -> snd r = None) /\
+    (is_broadcast (q_dst q) = false -> directed_to (q_dst q) uid = true ->
+     q_cc q = GET_COMMAND \/ q_cc q = SET_COMMAND ->
+     exists rr, r = (RDM_COMPLETED_OK, Some rr) /\ resp_ok q rr /\ (r_type rr = RDM_NACK_REASON -> same)).
+
+Lemma okreply_weaken uid q out (P Q : Prop) : (P -> Q) -> okreply uid q out P -> okreply uid q out Q.
+Proof.
+  intros PQ (r & E & B & U). exists r. split; [exact E|]. split; [exact B|].
+  intros X Y Z. destruct (U X Y Z) as (rr & A & O & K). exists rr. auto.
+Qed.
+
+Lemma nack_if_ok uid q reason :
+  reason <= NR_INVALID_PORT -> okreply uid q (nack_if_not_broadcast q reason) True.
+Proof.
+  intros Hr. unfold nack_if_not_broadcast. destruct (is_broadcast (q_dst q)) eqn:B.
+  - eexists. split; [reflexivity|]. split; [reflexivity|intros X; congruence].
+  - eexists. split; [reflexivity|]. split; [intros X; congruence|].
+    intros _ _ CC. destruct (nack_spec q reason 0) as (rr & E & O & _); [unfold wf_cc; tauto|exact Hr|].
+    rewrite E. exists rr. auto.
+Qed.
+
+Lemma dispatch_okreply {S} (out : list reply) (st st' : S) uid q :
+  (exists s ro, out = [(s, ro)]) ->
+  (is_broadcast (q_dst q) = true -> exists s, out = [(s, None)]) ->
+  (is_broadcast (q_dst q) = false -> directed_to (q_dst q) uid = true ->
+   q_cc q = GET_COMMAND \/ q_cc q = SET_COMMAND ->
+   exists r, out = [(RDM_COMPLETED_OK, Some r)] /\ resp_ok q r /\ (r_type r = RDM_NACK_REASON -> st' = st)) ->
+  okreply uid q out (st' = st).
+Proof.
+  intros (s & ro & E) BC UC. subst out. exists (s, ro). split; [reflexivity|]. split.
+  - intros B. destruct (BC B) as (s' & E). inversion E. reflexivity.
+  - intros B D CC. destruct (UC B D CC) as (rr & E & O & K). inversion E; subst. exists rr. auto.
+Qed.
+
+Lemma set_nth_same {A} (l : list A) : forall i x, nth_error l i = Some x -> set_nth l i x = l.
+Proof.
+  induction l as [|a r IH]; intros [|i] x E; cbn in *; try discriminate.
+  - inversion E. reflexivity.
+  - f_equal. apply IH. exact E.
+Qed.
+
+(* an existing sub-device: its reply is DimmerSubDevice's, and a NACK leaves the whole dimmer unchanged *)
+Lemma dm_sub_ok c uid k q st s :
+  nth_error (dm_subs st) (N.to_nat (k - 1)) = Some s ->
+  okreply uid q (fst (dm_sub_device c uid k q st)) (snd (dm_sub_device c uid k q st) = st).
+Proof.
+  intros E. unfold dm_sub_device. rewrite E.
+  pose proof (dimmer_sub_conforms c (len (dm_subs st)) uid k q s) as (ON & BC & UC). cbn zeta in *.
+  destruct (ds_send c (len (dm_subs st)) uid k q s) as [out s'] eqn:D. cbn [fst snd] in *.
+  eapply okreply_weaken; [|apply (dispatch_okreply out s s' uid q ON BC UC)].
+  intros ->. rewrite (set_nth_same _ _ _ E). destruct st; reflexivity.
+Qed.
+
+Lemma nth_error_some_lt {A} (l : list A) i : (i < length l)%nat -> exists x, nth_error l i = Some x.
+Proof.
+  intros H. destruct (nth_error l i) eqn:E; [eauto|]. apply nth_error_None in E. lia.
+Qed.
+
+Lemma dimmer_conforms c uid q st :
+  len (dm_subs st) < 65536 ->
+  exists r st', dm_send c uid q st = FOk [r] st' /\
+    (is_broadcast (q_dst q) = true -> snd r = None) /\
+    (is_broadcast (q_dst q) = false -> directed_to (q_dst q) uid = true ->
+     q_cc q = GET_COMMAND \/ q_cc q = SET_COMMAND ->
+     exists rr, r = (RDM_COMPLETED_OK, Some rr) /\ resp_ok q rr /\
+                (q_sub q <> ALL_RDM_SUBDEVICES -> r_type rr = RDM_NACK_REASON -> st' = st)).
+Proof.
+  intros LT.
+  (* it is enough to exhibit the replies and an okreply for them *)
+  assert (FIN : forall out st' (P : Prop), dm_send c uid q st = FOk out st' -> okreply uid q out P ->
+                (P -> q_sub q <> ALL_RDM_SUBDEVICES -> st' = st) ->
+                exists r st'', dm_send c uid q st = FOk [r] st'' /\
+                  (is_broadcast (q_dst q) = true -> snd r = None) /\
+                  (is_broadcast (q_dst q) = false -> directed_to (q_dst q) uid = true ->
+                   q_cc q = GET_COMMAND \/ q_cc q = SET_COMMAND ->
+                   exists rr, r = (RDM_COMPLETED_OK, Some rr) /\ resp_ok q rr /\
+                              (q_sub q <> ALL_RDM_SUBDEVICES -> r_type rr = RDM_NACK_REASON -> st'' = st))).
+  { intros out st' P E (r & Eo & B & U) K. subst out. exists r, st'. split; [exact E|]. split; [exact B|].
+    intros X Y Z. destruct (U X Y Z) as (rr & A & O & KK). exists rr. split; [exact A|]. split; [exact O|].
+    intros NS T. apply K; auto. }
+  remember (length (dm_subs st)) as n eqn:EN0.
+  destruct (q_sub q =? ROOT_RDM_DEVICE) eqn:R0.
+  { pose proof (dimmer_root_conforms c uid q st) as (ON & BC & UC). cbn zeta in *.
+    assert (E : dm_send c uid q st = FOk (fst (dm_root_send c uid q st)) (snd (dm_root_send c uid q st))).
+    { unfold dm_send, dimmer_send. rewrite R0. destruct (dm_root_send c uid q st); reflexivity. }
+    apply (FIN _ _ (snd (dm_root_send c uid q st) = st) E (dispatch_okreply _ st _ uid q ON BC UC)). auto. }
+  assert (ES : dm_send c uid q st = subdev_send dm_state (dm_devices c uid 1 n) q st).
+  { unfold dm_send, dimmer_send. rewrite R0, <- EN0. reflexivity. }
+  destruct (q_sub q =? ALL_RDM_SUBDEVICES) eqn:RA.
+  { destruct (q_cc q =? GET_COMMAND) eqn:G.
+    - assert (E : dm_send c uid q st = FOk (nack_if_not_broadcast q NR_SUB_DEVICE_OUT_OF_RANGE) st).
+      { rewrite ES. unfold subdev_send, fan_out. rewrite RA, G. reflexivity. }
+      apply (FIN _ st True E); [apply nack_if_ok; vm_compute; discriminate|].
+      intros _ X. apply N.eqb_eq in RA. contradiction.
+    - destruct n as [|n'].
+      + assert (E : dm_send c uid q st = FOk (nack_if_not_broadcast q NR_SUB_DEVICE_OUT_OF_RANGE) st).
+        { rewrite ES. unfold subdev_send, fan_out. rewrite RA, G. reflexivity. }
+        apply (FIN _ st True E); [apply nack_if_ok; vm_compute; discriminate|].
+        intros _ X. apply N.eqb_eq in RA. contradiction.
+      + cbn [dm_devices] in ES. apply N.eqb_eq in RA. apply N.eqb_neq in G.
+        rewrite (fan_out_state dm_state 1 (dm_sub_device c uid 1) (dm_devices c uid (1 + 1) n') q st) in ES.
+        * destruct (nth_error_some_lt (dm_subs st) 0) as (s & Es); [lia|].
+          apply (FIN _ _ _ ES (dm_sub_ok c uid 1 q st s Es)). intros _ X; contradiction.
+        * apply (dm_subs_once c uid 1 (S n')).
+        * change ((1, dm_sub_device c uid 1) :: dm_devices c uid (1 + 1) n') with (dm_devices c uid 1 (S n')).
+          rewrite len_dm_devices. unfold len in LT. rewrite <- EN0 in LT. exact LT.
+        * exact RA.
+        * exact G. }
+  unfold subdev_send in ES. rewrite RA, dm_devices_find in ES.
+  destruct ((1 <=? q_sub q) && (q_sub q <? 1 + N.of_nat n)) eqn:IN.
+  - apply andb_prop in IN as [A B]. apply N.leb_le in A. apply N.ltb_lt in B.
+    destruct (nth_error_some_lt (dm_subs st) (N.to_nat (q_sub q - 1))) as (s & Es); [lia|].
+    pose proof (dm_sub_ok c uid (q_sub q) q st s Es) as OK.
+    destruct (dm_sub_device c uid (q_sub q) q st) as [out st1] eqn:D. cbn [fst snd] in OK.
+    apply (FIN out st1 _ ES OK). auto.
+  - apply (FIN _ st True ES); [apply nack_if_ok; vm_compute; discriminate|auto].
+Qed.
